@@ -249,6 +249,7 @@ def rule_adv(R):
              "the broker limit is only written by the handshake: None, or the CONNACK's Maximum Packet Size (found %s in %s)"
              % (show(t), b.fn_name), where=s["span"])
     R.floor("adv/limit-writer", n, 1, "stores to maximum_packet_size")
+    roles.clause_negotiated_per_connection(R, "adv", ("maximum_packet_size",))
     arms = roles.connack_property_arms(f)
     a = arms.get("MaximumPacketSize")
     ok = a is not None and a["unconditional"] and any(v[0] == "agg" and v[3] == "Some" and chain(v[5][0])[1][-2:] == ["@MaximumPacketSize", "0"]
